@@ -569,4 +569,49 @@ theorem rpc_roundtrip (pfx mid : Str) (n : Str) (attrs : List (Str × Str)) (cs 
     exact parseDoc_serialize _ _ _ hw
   · rcases hp with hp | hp <;> subst hp <;> simp [rpcTree, attrOf, nsDecl] <;> decide
 
+/-! ### The root-only parse -/
+
+/-- Whatever the full parse accepts, the root-only parse reads the same root name and attributes from the start tag. -/
+theorem parseRoot_of_parseNode (fuel : Nat) (s rest : Str) (t : XNode) (h : parseNode fuel s = some (t, rest)) (hs : s.head? = some '<') :
+    parseRoot s = rootOf t := by
+  cases fuel with
+  | zero => simp [parseNode] at h
+  | succ fuel =>
+    cases s with
+    | nil => simp at hs
+    | cons c r =>
+      simp only [List.head?_cons, Option.some.injEq] at hs
+      subst hs
+      simp only [parseNode] at h
+      simp only [parseRoot]
+      by_cases hn : List.isEmpty (takeName r).fst = true
+      · rw [if_pos hn] at h; cases h
+      · rw [if_neg hn] at h; rw [if_neg hn]
+        cases hra : readAttrs (List.length (takeName r).snd + 1) (takeName r).snd with
+        | none => rw [hra] at h; cases h
+        | some p =>
+          obtain ⟨attrs, r2⟩ := p
+          rw [hra] at h
+          simp only at h ⊢
+          split at h
+          · simp only [Option.some.injEq, Prod.mk.injEq] at h; rw [← h.1]; rfl
+          · split at h
+            · cases h
+            · split at h
+              · split at h
+                · split at h
+                  · simp only [Option.some.injEq, Prod.mk.injEq] at h; rw [← h.1]; rfl
+                  · cases h
+                · cases h
+              · cases h
+          · cases h
+
+theorem parseRoot_agrees (s : Str) (t : XNode) (h : parseDoc s = some t) (hs : s.head? = some '<') : parseRoot s = rootOf t := by
+  unfold parseDoc at h
+  split at h
+  · rename_i x hx
+    injection h with h; subst h
+    exact parseRoot_of_parseNode _ s [] x hx hs
+  · cases h
+
 end NcVerif.XmlDocP
